@@ -44,6 +44,7 @@ ASSUMPTIONS = [
 
 _CNT = itertools.count()
 _PRISTINE = None
+_PRISTINE_OBJ = {}
 ERRMAP = {'InvalidStackError': 'EInvalidStack', 'IncongruentImageError': 'EIncongruent', 'ImageCollisionError': 'ECollision',
           'NonImageDataSetError': 'ENonImage', 'TypeError': 'EType', 'KeyError': 'EKey', 'ValueError': 'EValue',
           'IndexError': 'EIndex', 'AttributeError': 'EAttr', 'MissingExtensionError': 'EMissingExt',
@@ -70,15 +71,45 @@ def _impl():
     from dcmstack import dcmstack_cli, nitool_cli, extract, dcmmeta
     if _PRISTINE is None:
         _PRISTINE = (list(core.default_key_excl_res), list(core.default_key_incl_res))
+        _PRISTINE_OBJ.update(dx=extract.default_extractor, flt=core.default_meta_filter,
+                             dx_rules=extract.default_extractor.ignore_rules, dx_trans=extract.default_extractor.translators,
+                             dx_conv=extract.default_extractor.conversions, group_keys=core.default_group_keys,
+                             rules=extract.default_ignore_rules, trans=extract.default_translators)
+        _PRISTINE_OBJ['hidden'] = _hidden_state()
     return core, dcmstack_cli, nitool_cli, extract, dcmmeta
+
+
+def _hidden_state():
+    """Everything module-level the tools could leave behind: the regex lists, the shared default extractor
+    (its configuration and identity), the default filter, the default group keys / rule / translator tuples."""
+    import dcmstack.dcmstack as core
+    from dcmstack import extract
+    dx = extract.default_extractor
+
+    def rules(r):
+        return [getattr(f, '__name__', repr(f)) for f in (r or [])]
+
+    def trans(t):
+        return [[x.name, int(x.tag.group), int(x.tag.elem)] for x in (t or [])]
+    return {'excl': list(core.default_key_excl_res), 'incl': list(core.default_key_incl_res),
+            'dx': {'kind': 'meta', 'ignore': rules(dx.ignore_rules), 'trans': trans(dx.translators)},
+            'dx_same_object': dx is _PRISTINE_OBJ.get('dx', dx), 'dx_conversions_same': dx.conversions is _PRISTINE_OBJ.get('dx_conv', dx.conversions),
+            'filter_same_object': core.default_meta_filter is _PRISTINE_OBJ.get('flt', core.default_meta_filter),
+            'group_keys': list(core.default_group_keys), 'rules': rules(extract.default_ignore_rules),
+            'translators': trans(extract.default_translators)}
 
 
 def _case_start():
     """Every case starts from the module state at import (as if it ran in its own process), so that a case
     is self-contained and replayable; nothing is reset BETWEEN the invocations of a case."""
-    core = _impl()[0]
+    core, cli, nit, extract, dcmmeta = _impl()
     core.default_key_excl_res[:] = _PRISTINE[0]
     core.default_key_incl_res[:] = _PRISTINE[1]
+    extract.default_extractor = _PRISTINE_OBJ['dx']
+    extract.default_extractor.ignore_rules = _PRISTINE_OBJ['dx_rules']
+    extract.default_extractor.translators = _PRISTINE_OBJ['dx_trans']
+    extract.default_extractor.conversions = _PRISTINE_OBJ['dx_conv']
+    core.default_meta_filter = _PRISTINE_OBJ['flt']
 
 
 @contextlib.contextmanager
@@ -87,6 +118,34 @@ def _quiet():
     with contextlib.redirect_stdout(out), contextlib.redirect_stderr(err), warnings.catch_warnings():
         warnings.simplefilter('ignore')
         yield out, err
+
+
+def _build_csa2(tags):
+    """hand-built Siemens CSA2 ('SV10') header (same layout as props/c16.py build_csa2):
+    tags = [{name, vr, items: [str]}]"""
+    import struct
+    out = b"SV10" + b"\x04\x03\x02\x01" + struct.pack("<2I", len(tags), 77)
+    for t in tags:
+        items = [x.encode("latin-1") + b"\x00" for x in t["items"]]
+        out += struct.pack("<64si4s3i", t["name"].encode("latin-1"), len(items), t["vr"].encode("ascii"), 0, len(items), 77 if items else 205)
+        for it in items:
+            out += struct.pack("<4i", len(it), len(it), 77, len(it)) + it + b"\x00" * ((4 - len(it) % 4) % 4)
+    return out
+
+
+def _add_private(ds, k):
+    """Untranslated private elements (a creator pydicom knows: key 'B_value'; one it does not: key
+    'PrivateTagData', excluded by the default regexes) and the two Siemens CSA headers the default
+    translators read -- so that --extract-private and --disable-translator change the extracted keys."""
+    ds.add_new((0x0019, 0x0010), 'LO', 'SIEMENS MR HEADER')
+    ds.add_new((0x0019, 0x100c), 'IS', str(1000 + 50 * (k % 3)))
+    ds.add_new((0x0021, 0x0010), 'LO', 'ACME')
+    ds.add_new((0x0021, 0x1001), 'DS', '2.5')
+    ds.add_new((0x0029, 0x0010), 'LO', 'SIEMENS CSA HEADER')
+    ds.add_new((0x0029, 0x1010), 'OB', _build_csa2([{'name': 'B_value', 'vr': 'IS', 'items': [str(1000 + 50 * (k % 3))]},
+                                                      {'name': 'ImaCoilString', 'vr': 'LO', 'items': ['HEA;HEP']}]))
+    ds.add_new((0x0029, 0x1020), 'OB', _build_csa2([{'name': 'UsedPatientWeight', 'vr': 'IS', 'items': ['70']},
+                                                      {'name': 'MrProtocolVersion', 'vr': 'IS', 'items': ['21']}]))
 
 
 def _write_series(dirpath, start, series):
@@ -123,6 +182,8 @@ def _write_series(dirpath, start, series):
         for k, a in (('num', 'SeriesNumber'), ('proto', 'ProtocolName')):
             if series.get(k) is None and a in ds:
                 delattr(ds, a)
+        if series.get('priv', True):
+            _add_private(ds, f['cell'][1])
         ds.save_as(os.path.join(dirpath, '%04d.dcm' % n), enforce_file_format=True)
         n += 1
     return n
